@@ -47,7 +47,7 @@ CLAIMS = {
             "not held the same way. The converse direction (canonical X-FEN string -> same string) is decided by the correspondence run on canonical strings written by an independent printer.",
             "DESIGN.md section 6 C06 and section 9", ""),
     "C08": ("proof", "Coq proofs: square attack query = Rules.attacked on the abstract board for both sides and both frames (exhaustive one-square leaper tables lifted by linearity, first-blocker lemma for the slider walks, mirror symmetry of the rules); count_moves = length(legal_moves) for every position (block-by-block, promotion targets split by rank), popcount = enumeration length, perft recursion, capture list = filter; + differential vs the rules (counts, captures, attack queries, perft)",
-            "PARTIAL proof. Proved: is_sq_attacked p sq side = the rules' attack relation on abs_state's board, for either side as attacker and either "
+            "Proof on the model: is_sq_attacked p sq side = the rules' attack relation on abs_state's board, for either side as attacker and either "
             "colour to move, under the executable test attack_pre_b (boards below 2^64, one man at most per square, one king a side), which is "
             "evaluated (true) on every position the run uses; the arithmetic link between counts and lists, perft's recursion with the bulk counter, "
             "captures = filtered generation in order; count_moves p = length (legal_moves p) for every position with no hypothesis (hence perft 1 = "
@@ -57,10 +57,12 @@ CLAIMS = {
     "C09": ("proof", "Coq proof of shape, square-name injectivity and injectivity of the Chess960 notation + differential on all legal moves incl. parser round trip",
             "PARTIAL proof. Proved: string shape, square names injective, Chess960-mode strings determine the move. Standard-mode injectivity on standard "
             "geometry and the parser round trip: correspondence run.", "DESIGN.md section 6 C09", ""),
-    "C11": ("proof", "Coq lemmas: a non-root node with clock >= 100 or a repeated key in the look-back window returns the draw score + real searches on all-drawn roots",
-            "PARTIAL proof. Proved on the model: the two rule-draw returns at non-root nodes (look-back window of halfmoves + 1 entries). The root-level "
-            "statement (every iteration >= 2 reports the draw constant) is decided by running real searches on generated all-drawn roots.",
-            "DESIGN.md section 6 C11", "modulo fuel"),
+    "C11": ("proof", "Coq: root-level theorem (empty table, every successor rule-drawn, no key clash with the root => every reported iteration >= 2 scores the draw constant and the answer is legal, for every stop predicate and fuel) on top of the node-level draw lemmas + real searches on generated all-drawn roots",
+            "Proof on the model: a non-root node with clock >= 100 or a repeated key in the look-back window (halfmoves + 1 entries) returns the draw score; and at the root (C11_root_all_drawn): "
+            "for every stop predicate and fuel, starting from an empty table (new or cleared), if every generated move of the root leads to a position that is rule-drawn as the child node "
+            "sees the history, and no successor's key equals the root's key, then every reported iteration of depth >= 2 carries -DRAW_SCORE (one constant) and the answer is a legal move. "
+            "That the histories built by the UCI layer make the successors rule-drawn, and the tie to the binary, rest on running real searches on generated all-drawn roots.",
+            "DESIGN.md section 6 C11 and section 9", "modulo fuel; no_clash excludes 64-bit key collisions between the root and its successors"),
     "C12": ("proof", "Coq lemmas: a node without legal moves in check returns -MATE+ply; no null move in check + real searches on mate-in-one roots with fresh and pre-filled tables",
             "PARTIAL proof. Proved on the model: value of a mated / stalemated node for any window, depth and table. The root-level statement for arbitrary "
             "tables is decided by running real searches (depth 1..4, fresh and pre-filled tables) on generated mate-in-one roots.",
